@@ -117,9 +117,9 @@ Fixpoint b_copyin (fuel todo : nat) (s : bst) (acc : list byte)
       | [] => b_fill s (fun r => match r with
                                  | SVal (b, s') => b_copyin fuel' todo {| bbuf := b :: bbuf s'; bend := bend s' |} acc k
                                  | SStop e => k (SStop e) end)
-      | _ => let i := Nat.min (length (bbuf s)) todo in
-             b_copyin fuel' (todo - i) {| bbuf := skipn i (bbuf s); bend := bend s |}
-                      (rev (firstn i (bbuf s)) ++ acc) k
+      | _ => let got := firstn todo (bbuf s) in      (* min(avail, todo) bytes, without measuring the whole buffer *)
+             b_copyin fuel' (todo - length got) {| bbuf := skipn todo (bbuf s); bend := bend s |}
+                      (rev_append got acc) k
       end
     end
   end.
